@@ -384,6 +384,30 @@ class SymInterp(Interp):
                     return fsym(_n, x)
                 return ew(g, a) if isinstance(a, SArr) else g(rat(a))
             return f
+        bin_uf = {"add": lambda a, b: a + b, "subtract": lambda a, b: a - b, "multiply": lambda a, b: a * b, "divide": lambda a, b: a / b,
+                  "true_divide": lambda a, b: a / b, "power": lambda a, b: a ** b}
+        cmp_uf = {"less": "lt", "less_equal": "le", "greater": "gt", "greater_equal": "ge", "equal": "eq", "not_equal": "ne"}
+        un_uf = {"negative": lambda a: -a, "square": lambda a: a * a, "reciprocal": lambda a: rat(1) / a, "positive": lambda a: a}
+
+        def with_out(r, out):
+            if out is None:
+                return r
+            if not isinstance(out, SArr):
+                raise AnalysisAbort("out= is not an array")
+            out.setitem(Ellipsis, r)
+            return out
+        if name in bin_uf:
+            f = bin_uf[name]
+            return lambda a, b, out=None, **k: with_out(ew(lambda x, y: f(rat(x), rat(y)), a, b) if (isinstance(a, SArr) or isinstance(b, SArr)) else f(rat(a), rat(b)), out)
+        if name in cmp_uf:
+            return lambda a, b, out=None, **k: with_out(I.data_cmp(cmp_uf[name], a, b), out)
+        if name in un_uf:
+            g = un_uf[name]
+            return lambda a, out=None, **k: with_out(ew(lambda x: g(rat(x)), a) if isinstance(a, SArr) else g(rat(a)), out)
+        if name == "errstate":
+            return lambda **k: None
+        if name == "asanyarray" or name == "ascontiguousarray":
+            return lambda x, **k: x if isinstance(x, SArr) else SArr.from_nested(x)
         if name == "ndarray":
             return NDARRAY
         if name == "newaxis":
@@ -431,10 +455,27 @@ class SymInterp(Interp):
             return swap
         if name == "expand_dims":
             def ed(a, axis):
+                a = S.asarr(a)
+                req = list(axis) if isinstance(axis, (tuple, list)) else [axis]
+                n_out = a.ndim + len(req)
                 sh = list(a.shape)
-                sh.insert(int(axis) % (a.ndim + 1), 1)
-                return SArr(tuple(sh), list(a.data))
+                for k in sorted(int(self.idx(x)) % n_out for x in req):
+                    sh.insert(k, 1)
+                return SArr(tuple(sh), None, base=a.base, dtype=a.dtype, view=(a, list(range(a.size))))
             return ed
+        if name == "broadcast_to":
+            return lambda a, shape, **k: S.asarr(a).broadcast_to(tuple(int(self.idx(x)) for x in shape))
+        if name == "count_nonzero":
+            return lambda a, **k: sum(1 for v in S.asarr(a).data if not (isinstance(v, Rat) and v.is_zero()))
+        if name == "stack":
+            def stack(arrs, axis=0):
+                arrs = [S.asarr(x) for x in arrs]
+                ax = int(axis) % (arrs[0].ndim + 1)
+                exp = [SArr(x.shape[:ax] + (1,) + x.shape[ax:], list(x.data)) for x in arrs]
+                return S.concatenate(exp, ax)
+            return stack
+        if name == "hstack":
+            return lambda arrs: S.concatenate([S.asarr(x) if S.asarr(x).ndim else SArr((1,), S.asarr(x).data) for x in arrs], -1 if S.asarr(list(arrs)[0]).ndim > 1 else 0)
         if name == "diag_indices":
             return lambda n, ndim=2: tuple(list(range(int(n))) for _ in range(ndim))
         if name == "ndindex":
